@@ -9,7 +9,13 @@ THRESH = list(range(1, 131)) + SPARSE            # quick: every size 1..130 (a l
 THRESH_THOROUGH = list(range(1, 301)) + [n for n in SPARSE if n > 300] + [2047, 2048, 2049, 4095, 4096, 4097]
 DIMS = ["table_rows", "table_cols", "tags_on_line", "tag_lines", "steps", "scenarios", "examples_rows",
         "examples_tables", "description_lines", "docstring_lines", "name_length", "indent", "rules",
-        "comments", "blank_lines", "window", "cell_length", "examples_cols", "background_steps"]
+        "comments", "blank_lines", "window", "cell_length", "examples_cols", "background_steps",
+        "desc_line_length", "doc_line_length", "comment_length", "step_length", "tag_length"]
+# dimensions that are the length of ONE line: cheap, so they also get the sizes of I/O buffers and read limits
+LENGTH_DIMS = ("name_length", "cell_length", "indent", "desc_line_length", "doc_line_length", "comment_length", "step_length", "tag_length")
+LONG = [2047, 2048, 2049, 4095, 4096, 4097, 8191, 8192, 8193, 16383, 16384, 16385, 32767, 32768, 32769, 65535, 65536, 65537,
+        131071, 131072, 131073]
+LONG_THOROUGH = LONG + [(1 << 20) - 1, 1 << 20, (1 << 20) + 1, (1 << 22) + 1]
 
 
 class R:
@@ -145,6 +151,34 @@ def build(dim, n):
         children.append({"scenario": sc})
     elif dim == "name_length":
         children.append({"scenario": b.scenario(2, name="N" * n, steps=1)})
+    elif dim == "desc_line_length":
+        line = "  " + ("d" * 9 + " ") * (n // 10) + "e" * (n % 10 or 10)
+        line = line[:2 + n].rstrip().ljust(2 + n, "f")
+        b.emit(line, "Other")
+        desc = line
+        children.append({"scenario": b.scenario(2, steps=1)})
+    elif dim == "doc_line_length":
+        sc = b.scenario(2, steps=1)
+        b.emit('      """', "DocStringSeparator")
+        dl = b.loc(6)
+        content = ("c" * 7 + " ") * (n // 8) + "c" * (n % 8)
+        content = content[:n].rstrip().ljust(n, "g")
+        b.emit("      " + content, "Other")
+        b.emit("      after", "Other")
+        b.emit('      """', "DocStringSeparator")
+        sc["steps"][0]["docString"] = {"location": dl, "content": content + "\nafter", "delimiter": '"""'}
+        children.append({"scenario": sc})
+    elif dim == "comment_length":
+        children.append({"scenario": b.scenario(2, steps=1)})
+        b.comment(4, "c" * max(0, n - 1))
+        children[0]["scenario"]["steps"].append(b.step(4, "Then ", "Outcome", "after the comment"))
+    elif dim == "step_length":
+        sc = b.scenario(2, steps=0)
+        sc["steps"].append(b.step(4, "Given ", "Context", "s" * n))
+        sc["steps"].append(b.step(4, "And ", "Conjunction", "after the long step"))
+        children.append({"scenario": sc})
+    elif dim == "tag_length":
+        children.append({"scenario": b.scenario(2, tags=[["@" + "t" * n, "@after"]], steps=1)})
     elif dim == "indent":
         children.append({"scenario": b.scenario(n, tags=[["@deep"]], steps=2)})
     elif dim == "rules":
@@ -193,10 +227,13 @@ def cases(tier, part=None, parts=None):
     out = []
     cheap = ("window", "table_rows", "tag_lines", "comments", "blank_lines", "name_length", "indent", "cell_length")
     for dim in DIMS:
-        for n in (THRESH if tier == "quick" else THRESH_THOROUGH):
-            if n > 1025 and dim not in cheap:
+        sizes = (THRESH if tier == "quick" else THRESH_THOROUGH)
+        if dim in LENGTH_DIMS:
+            sizes = sorted(set(sizes) | set(LONG if tier == "quick" else LONG_THOROUGH))
+        for n in sizes:
+            if n > 1025 and dim not in cheap and dim not in LENGTH_DIMS:
                 continue
-            if tier == "quick" and n > 257 and dim not in ("window", "table_rows", "tag_lines", "comments", "blank_lines", "name_length", "indent", "cell_length"):
+            if tier == "quick" and n > 257 and dim not in cheap and dim not in LENGTH_DIMS:
                 continue
             if dim in ("rules", "scenarios", "examples_tables") and n > 513 and tier == "quick":
                 continue
